@@ -193,7 +193,7 @@ int main(int argc, char **argv)
               vproxy *px = new vproxy(4, ss != 0);
               px->set_target_temperature(c.T);
               place(*px, c, word[0], 0);
-              if (px->config(conf) != 0) { fprintf(stderr, "HARNESS-ERROR: %s rejected: %s\n", c.name, px->errtxt.c_str()); exit(2); }
+              if (px->config(conf) != 0) { fprintf(stderr, "HARNESS-ERROR: %s rejected: %s\n", c.name, px->errtxt.c_str()); exit(3); }
               RefABF ref(c);
               // call sequence
               std::vector<long> calls;
@@ -213,7 +213,7 @@ int main(int argc, char **argv)
                     px = new vproxy(4, ss != 0);
                     px->set_target_temperature(c.T);
                     place(*px, c, word[s], s);
-                    if (px->config(conf) != 0) { fprintf(stderr, "HARNESS-ERROR: %s rejected at restart\n", c.name); exit(2); }
+                    if (px->config(conf) != 0) { fprintf(stderr, "HARNESS-ERROR: %s rejected at restart\n", c.name); exit(3); }
                     px->queue_state_text(st);
                   }
                 }
